@@ -53,7 +53,7 @@ CHECKS = {
    note="LSP transport ordered and reliable (no transport faults); positions on code-point boundaries, \\n line ends, lines inside the document; trusted: the Python reference document, simrt."),
  "C29": dict(engine="simthread", level="exploration", design="4 C29",
    technique="deterministic simulation with a simulated clock: edit histories with seeded think-times against the real server under seeded schedules, differential oracle against a fresh server that only opens the final text",
-   text="Seeded exploration: edit histories that add, delete and modify top-level definitions (one or several per notification, optional didSave, auto-save off/afterDelay, think-times around the 500 ms auto-diagnostics poll, late timers) run under seeded schedules; at quiescence (3.5 s simulated after the last event) the last publishDiagnostics per document must equal, as a multiset of (range, severity, message), what a freshly started server publishes for the final text.",
+   text="Seeded exploration: edit histories that add, delete and modify top-level definitions (one or several per notification, optional didSave, auto-save off/afterDelay, think-times around the 500 ms auto-diagnostics poll, late timers) run under seeded schedules; at quiescence (3.5 s simulated after the last event) the last publishDiagnostics per document must equal, as a set of (range, severity, message) and - a separate clause - in multiplicities, what a freshly started server publishes for the final text. Nine histories in ten start editing two poll periods after didOpen, one in ten at once (on the unchanged tree an edit before the polling thread's first sight of a document is never analysed: known finding).",
    note="Quiescence = 3.5 s simulated after the last event (7 poll periods); the fresh twin runs under the default schedule; trusted: simrt, the orchestrator's diff."),
  "C21": dict(engine="simthread", level="exploration", design="4 C21",
    technique="deterministic simulation of 2-3 caller threads on the real SharedModuleGraph with Wing-Gong linearizability checking against a reference graph; plus operation-by-operation refinement checking of single-caller histories",
